@@ -189,6 +189,16 @@ def thread_family(r, tier):
     reqs = {"int": SV.AReq(path="/i/7"), "dec": SV.AReq(path="/d/1.50/é"), "str": SV.AReq(path="/s/bob"), "any": SV.AReq(path="/x/y"), "none": SV.AReq(path="nomatch")}
     pairs = [(x, y) for x in reqs for y in reqs if x < y]
     SV.wsgi_thread_pairs(r, "Router", router, reqs, pairs, files, bound=1 if tier == "quick" else 2)
+    from baize import asgi as A
+
+    def aep(tag):
+        async def app(scope, receive, send):
+            pp = A.Request(scope, receive, send).path_params
+            await receive()
+            return await A.PlainTextResponse(repr((tag, sorted((k, repr(v)) for k, v in pp.items()))))(scope, receive, send)
+        return app
+    arouter = A.Router(("/i/{x:int}", aep("int")), ("/d/{x:decimal}/{y}", aep("dec")), ("/s/{name}", aep("str")), ("/{p:any}", aep("any")))
+    SV.asgi_task_pairs(r, "Router", arouter, reqs, pairs, bound=2)
     r.sample({"threads": "two requests on one Router object, line-level schedules"})
 
 
